@@ -364,17 +364,21 @@ Section Gen.
   Lemma flipm_compat n A B : meq n A B -> meq n (flipm n A) (flipm n B).
   Proof. intros H i j Hi Hj. unfold flipm. apply H; lia. Qed.
 
+  Lemma eqb_flip n i a : i < n -> a < n -> (n - 1 - i =? a) = (i =? n - 1 - a).
+  Proof.
+    intros Hi Ha. destruct (Nat.eqb_spec (n - 1 - i) a), (Nat.eqb_spec i (n - 1 - a)); try reflexivity; lia.
+  Qed.
+  Lemma eqb_flip2 n i j : i < n -> j < n -> (n - 1 - i =? n - 1 - j) = (i =? j).
+  Proof.
+    intros Hi Hj. destruct (Nat.eqb_spec (n - 1 - i) (n - 1 - j)), (Nat.eqb_spec i j); try reflexivity; lia.
+  Qed.
+
   Lemma flipm_embed2 n a b u00 u01 u10 u11 :
     a < n -> b < n ->
     meq n (flipm n (embed2 a b u00 u01 u10 u11)) (embed2 (n - 1 - a) (n - 1 - b) u00 u01 u10 u11).
   Proof.
     intros Ha Hb i j Hi Hj. unfold flipm, Mat.embed2, Mat.mid.
-    destruct (Nat.eqb_spec (n - 1 - i) a), (Nat.eqb_spec i (n - 1 - a)); try lia;
-    destruct (Nat.eqb_spec (n - 1 - j) a), (Nat.eqb_spec j (n - 1 - a)); try lia;
-    destruct (Nat.eqb_spec (n - 1 - j) b), (Nat.eqb_spec j (n - 1 - b)); try lia;
-    destruct (Nat.eqb_spec (n - 1 - i) b), (Nat.eqb_spec i (n - 1 - b)); try lia;
-    try reflexivity;
-    destruct (Nat.eqb_spec (n - 1 - i) (n - 1 - j)), (Nat.eqb_spec i j); try lia; reflexivity.
+    rewrite !(eqb_flip n i), !(eqb_flip n j), (eqb_flip2 n i j) by assumption. reflexivity.
   Qed.
 End Gen.
 
@@ -654,7 +658,11 @@ Section Model.
           eapply meq_trans; [|apply meq_sym; apply (flipm_mmul (o:=co))].
           apply (mmul_compat (o:=co)); [apply IH; assumption|].
           unfold dcell, dprec, T_of, bs_matrix. cbn [pr_j pr_phi pr_theta].
-          apply (unit_cell_model n (nr_j r) _ _ r0 _ _ _ hh); try assumption.
+          set (cs := e_cis E (half o (nr_theta r))).
+          apply (unit_cell_model n (nr_j r)
+                   (dphase p0 (nr_theta r) (kmul co (fst cs, snd cs) (fst cs, snd cs)))
+                   (dphase p0 (nr_phi r) (e_cis E (nr_phi r))) r0 (fst cs) (snd cs)
+                   (e_cis E (nr_phi r)) hh); try assumption.
           + lia.
           + apply Hcis.
           + unfold dphase. cbn [ph_amp]. rewrite Hp0. apply cmul_1_r.
@@ -1270,3 +1278,439 @@ Section NullStepR.
     - apply (cis_unit (o:=rops) E (Hcis_R eps2 prec uprec2 ints unif norm)).
   Qed.
 End NullStepR.
+
+(* Part 8: the double loop.  For an exactly unitary input, when every step either meets an
+   exactly vanishing entry (zero branch) or an entry of modulus >= 1e-20 (code's formulas),
+   the nulled matrix is diagonal with unit-modulus entries, both checks of
+   reck_decomposition pass, and Reck.map reproduces U. *)
+Section Loop.
+  Context {K : Type} (o : ops K).
+  Variable E : env (K:=K).
+
+  Lemma decomp_loop_app n ans l1 l2 k U :
+    snd (decomp_loop o E n ans (l1 ++ l2) k U) =
+    snd (decomp_loop o E n ans l2 (k + length l1) (snd (decomp_loop o E n ans l1 k U))).
+  Proof.
+    revert k U; induction l1 as [|[i j] l1 IH]; intros k U.
+    - simpl. rewrite Nat.add_0_r. reflexivity.
+    - simpl. rewrite IH. f_equal. f_equal. lia.
+  Qed.
+End Loop.
+
+Section Diag.
+  Open Scope R_scope.
+  Notation Cr := (cplx rops).
+  Notation cmat := (@mat (R * R)).
+
+  Lemma fst_sumn n (f : nat -> R * R) : fst (sumn Cr n f) = sumn rops n (fun k => fst (f k)).
+  Proof. induction n as [|n IH]; [reflexivity|]. simpl. rewrite IH. reflexivity. Qed.
+
+  Lemma sumn_nonneg n (f : nat -> R) : (forall k, (k < n)%nat -> 0 <= f k) -> 0 <= sumn rops n f.
+  Proof.
+    induction n as [|n IH]; intros H; simpl; [lra|].
+    assert (0 <= sumn rops n f) by (apply IH; intros; apply H; lia).
+    assert (0 <= f n) by (apply H; lia). lra.
+  Qed.
+
+  Lemma sumn_nonneg_zero n (f : nat -> R) :
+    (forall k, (k < n)%nat -> 0 <= f k) -> sumn rops n f = 0 -> forall k, (k < n)%nat -> f k = 0.
+  Proof.
+    induction n as [|n IH]; intros H Hs k Hk; [lia|]. simpl in Hs.
+    assert (A : 0 <= sumn rops n f) by (apply sumn_nonneg; intros; apply H; lia).
+    assert (B : 0 <= f n) by (apply H; lia).
+    destruct (Nat.eq_dec k n) as [->|Hne]; [lra|].
+    apply IH; try lia; [intros; apply H; lia|lra].
+  Qed.
+
+  Lemma cnorm2_0 : cnorm2 rops (0, 0) = 0.
+  Proof. unfold cnorm2. simpl. ring. Qed.
+
+  Lemma cnorm2_pos_nz u : 0 < cnorm2 rops u -> u <> (0, 0).
+  Proof. intros H ->. rewrite cnorm2_0 in H. lra. Qed.
+
+  Lemma cnorm2_nonneg z : 0 <= cnorm2 rops z.
+  Proof. unfold cnorm2. simpl. nra. Qed.
+  Lemma cnorm2_zero z : cnorm2 rops z = 0 -> z = (0, 0).
+  Proof. destruct z as [a b]. unfold cnorm2. simpl. intros H. f_equal; nra. Qed.
+  Lemma fst_conj_mul z : fst (kmul Cr (kconj Cr z) z) = cnorm2 rops z.
+  Proof. destruct z. unfold cnorm2. simpl. ring. Qed.
+  Lemma fst_mul_conj z : fst (kmul Cr z (kconj Cr z)) = cnorm2 rops z.
+  Proof. destruct z. unfold cnorm2. simpl. ring. Qed.
+
+  (* column and row norms of a unitary matrix *)
+  Lemma unitary_col_norm n (M : cmat) c :
+    unitary Cr n M -> (c < n)%nat -> sumn rops n (fun r => cnorm2 rops (M r c)) = 1.
+  Proof.
+    intros [HL _] Hc. specialize (HL c c Hc Hc). apply (f_equal fst) in HL.
+    unfold mmul in HL. rewrite fst_sumn in HL. unfold mid in HL. rewrite Nat.eqb_refl in HL. simpl fst in HL at 2.
+    rewrite <- HL. apply sumn_ext. intros r _. unfold madj. symmetry. apply fst_conj_mul.
+  Qed.
+
+  Lemma unitary_row_norm n (M : cmat) r :
+    unitary Cr n M -> (r < n)%nat -> sumn rops n (fun c => cnorm2 rops (M r c)) = 1.
+  Proof.
+    intros [_ HR] Hr. specialize (HR r r Hr Hr). apply (f_equal fst) in HR.
+    unfold mmul in HR. rewrite fst_sumn in HR. unfold mid in HR. rewrite Nat.eqb_refl in HR. simpl fst in HR at 2.
+    rewrite <- HR. apply sumn_ext. intros c _. unfold madj.
+    destruct (M r c) as [a b]. unfold cnorm2. simpl. ring.
+  Qed.
+
+  (* unitary + zero left of the diagonal  =>  diagonal, with unit-modulus diagonal *)
+  Theorem unitary_triangular_diagonal n (M : cmat) :
+    unitary Cr n M ->
+    (forall r x, (r < n)%nat -> (x < r)%nat -> M r x = (0, 0)) ->
+    forall k, (k < n)%nat ->
+      cnorm2 rops (M k k) = 1 /\ (forall x, (x < n)%nat -> x <> k -> M k x = (0, 0)).
+  Proof.
+    intros HU Htri k. induction k as [k IH] using lt_wf_ind. intros Hk.
+    assert (Hkk : cnorm2 rops (M k k) = 1).
+    { rewrite <- (unitary_col_norm n M k HU Hk).
+      symmetry. apply (sumn_single (o:=rops) n k (fun r => cnorm2 rops (M r k)) Hk).
+      intros r Hr Hne. destruct (lt_dec r k) as [Hlt|Hge].
+      - destruct (IH r Hlt ltac:(lia)) as [_ Hoff]. rewrite Hoff by lia. apply cnorm2_0.
+      - rewrite Htri by lia. apply cnorm2_0. }
+    split; [exact Hkk|].
+    set (h := fun x => if Nat.eqb x k then 0 else cnorm2 rops (M k x)).
+    assert (Hh0 : sumn rops n h = 0).
+    { assert (Hsplit : sumn rops n h =
+                       ksub rops (sumn rops n (fun x => cnorm2 rops (M k x)))
+                                 (sumn rops n (fun x => if Nat.eqb x k then cnorm2 rops (M k x) else k0 rops))).
+      { rewrite <- (sumn_sub (o:=rops)). apply sumn_ext. intros x _. unfold h.
+        destruct (Nat.eqb x k); simpl; ring. }
+      rewrite Hsplit, (unitary_row_norm n M k HU Hk), (sumn_delta (o:=rops)) by assumption.
+      rewrite Hkk. simpl. ring. }
+    intros x Hx Hne. apply cnorm2_zero.
+    assert (Hnn : forall y, (y < n)%nat -> 0 <= h y).
+    { intros y _. unfold h. destruct (Nat.eqb y k); [lra|apply cnorm2_nonneg]. }
+    pose proof (sumn_nonneg_zero n h Hnn Hh0 x Hx) as Hx0. unfold h in Hx0.
+    apply Nat.eqb_neq in Hne. rewrite Hne in Hx0. exact Hx0.
+  Qed.
+
+  (* a unit-modulus number is exp(i angle) *)
+  Lemma unit_angle z a : cnorm2 rops z = 1 -> angle_ok z a -> z = cisR a.
+  Proof.
+    intros H1 Ha. unfold angle_ok in Ha. rewrite Ha. unfold cisR.
+    assert (Habs : cabsR z = 1).
+    { unfold cabsR. unfold cnorm2 in H1. simpl in H1. rewrite H1. apply sqrt_1. }
+    rewrite Habs. f_equal; ring.
+  Qed.
+
+  (* np.flip(U, axis=(0,1)) of a unitary is unitary *)
+  Lemma flip_lunit n (A : cmat) : lunit Cr n A -> lunit Cr n (flip n A).
+  Proof.
+    intros H. unfold lunit.
+    eapply meq_trans; [|apply (flip_mid (o:=rops))].
+    eapply meq_trans; [apply meq_sym; apply (flipm_mmul (o:=Cr) n (madj Cr A) A)|].
+    exact (flipm_compat n (mmul Cr n (madj Cr A) A) (mid Cr) H).
+  Qed.
+
+  Lemma flip_unitary n (A : cmat) : unitary Cr n A -> unitary Cr n (flip n A).
+  Proof. intros [H1 H2]. split; [apply flip_lunit, H1|apply (flip_lunit n (madj Cr A)), H2]. Qed.
+End Diag.
+
+Section Tri.
+  Open Scope R_scope.
+  Variables (eps2 prec uprec2 : R) (ints : Z -> nat -> Z) (unif norm : rsrc -> nat -> R).
+  Let E := renv eps2 prec uprec2 ints unif norm.
+  Notation Cr := (cplx rops).
+  Notation cmat := (@mat (R * R)).
+
+  (* what is assumed of one step: the entry to null is exactly zero, or it is not below the
+     1e-20 threshold and the oracle's answer is the code's formula for some valid np.angle values *)
+  Definition step_ok (ans : nat -> R * R) (k : nat) (u0 u1 : R * R) : Prop :=
+    u0 = (0, 0) \/
+    (eps2 <= cnorm2 rops u0 /\
+     exists a0 a1, angle_ok u0 a0 /\ angle_ok u1 a1 /\
+                   ans k = (2 * atan (cabsR u1 / cabsR u0), a0 - a1)).
+
+  (* the matrix after one iteration of the loop body of the model *)
+  Definition loop_step (n : nat) (ans : nat -> R * R) (k : nat) (U : cmat) (i j : nat) : cmat :=
+    let a := null_answer rops E ans k (U (n - 1 - i)%nat j) in
+    null_update rops n U (bs_matrix rops E j (S j) (fst (fst a)) (snd (fst a))).
+
+  Fixpoint steps_ok (n : nat) (ans : nat -> R * R) (st : list (nat * nat)) (k : nat) (U : cmat) : Prop :=
+    match st with
+    | [] => True
+    | (i, j) :: st' =>
+        step_ok ans k (U (n - 1 - i)%nat j) (U (n - 1 - i)%nat (S j)) /\
+        steps_ok n ans st' (S k) (loop_step n ans k U i j)
+    end.
+
+  Lemma decomp_loop_cons n ans i j st k U :
+    snd (decomp_loop rops E n ans ((i, j) :: st) k U) =
+    snd (decomp_loop rops E n ans st (S k) (loop_step n ans k U i j)).
+  Proof. reflexivity. Qed.
+
+  Lemma steps_ok_app n ans l1 l2 k U :
+    steps_ok n ans (l1 ++ l2) k U <->
+    steps_ok n ans l1 k U /\
+    steps_ok n ans l2 (k + length l1) (snd (decomp_loop rops E n ans l1 k U)).
+  Proof.
+    revert k U; induction l1 as [|[i j] l1 IH]; intros k U.
+    - simpl. rewrite Nat.add_0_r. tauto.
+    - cbn [app steps_ok length]. rewrite IH, decomp_loop_cons.
+      replace (S k + length l1)%nat with (k + S (length l1))%nat by lia. tauto.
+  Qed.
+
+  (* one iteration zeroes its target *)
+  Lemma loop_step_target n ans k U i j :
+    0 < eps2 -> (i + j + 2 <= n)%nat ->
+    step_ok ans k (U (n - 1 - i)%nat j) (U (n - 1 - i)%nat (S j)) ->
+    loop_step n ans k U i j (n - 1 - i)%nat j = (0, 0).
+  Proof.
+    intros Heps Hij Hs. unfold loop_step, null_answer.
+    change (e_eps2 E) with eps2. change (e_pi E) with PI.
+    destruct Hs as [H0|(Hge & a0 & a1 & A0 & A1 & Hans)].
+    - rewrite H0, cnorm2_0.
+      replace (kltb rops 0 eps2) with true by (symmetry; apply kltb_true; exact Heps).
+      cbn [fst snd]. change (k0 rops) with 0.
+      rewrite (null_step_zero_branch_R eps2 prec uprec2 ints unif norm) by lia. exact H0.
+    - replace (kltb rops (cnorm2 rops (U (n - 1 - i)%nat j)) eps2) with false
+        by (symmetry; apply kltb_false; exact Hge).
+      cbn [fst snd]. rewrite Hans. cbn [fst snd].
+      apply (null_step_generic_R eps2 prec uprec2 ints unif norm); try assumption; try lia.
+      apply cnorm2_pos_nz. lra.
+  Qed.
+
+  (* rows below row n-1-i are zero left of the diagonal; row n-1-i is zero left of column j *)
+  Definition tri_inv (n i j : nat) (U : cmat) : Prop :=
+    forall r x, (r < n)%nat -> (x < r)%nat ->
+                ((n - 1 - i < r)%nat \/ (r = n - 1 - i /\ x < j)%nat) -> U r x = (0, 0).
+
+  Lemma loop_step_inv n ans k U i j :
+    0 < eps2 -> (i + j + 2 <= n)%nat ->
+    step_ok ans k (U (n - 1 - i)%nat j) (U (n - 1 - i)%nat (S j)) ->
+    tri_inv n i j U -> tri_inv n i (S j) (loop_step n ans k U i j).
+  Proof.
+    intros Heps Hij Hs Hinv r x Hr Hx Hc.
+    destruct (Nat.eq_dec r (n - 1 - i)) as [Hrl|Hrl].
+    - destruct (Nat.eq_dec x j) as [->|Hxj].
+      + subst r. apply loop_step_target; assumption.
+      + assert (Hxlt : (x < j)%nat) by lia.
+        assert (Hz : U r x = (0, 0)) by (apply Hinv; lia).
+        unfold loop_step. apply (null_step_keeps_R eps2 prec uprec2 ints unif norm); try lia; exact Hz.
+    - assert (Hgt : (n - 1 - i < r)%nat) by lia.
+      assert (Hz : U r x = (0, 0)) by (apply Hinv; lia).
+      assert (Hz1 : U r j = (0, 0)) by (apply Hinv; lia).
+      assert (Hz2 : U r (S j) = (0, 0)) by (apply Hinv; lia).
+      unfold loop_step. apply (null_step_keeps_R eps2 prec uprec2 ints unif norm); try lia; try exact Hz.
+      intros _. split; assumption.
+  Qed.
+
+  Lemma inner_loop_inv n ans i len : forall j0 k U,
+    0 < eps2 -> (i + j0 + len + 1 = n)%nat ->
+    steps_ok n ans (map (fun j => (i, j)) (seq j0 len)) k U ->
+    tri_inv n i j0 U ->
+    tri_inv n i (j0 + len) (snd (decomp_loop rops E n ans (map (fun j => (i, j)) (seq j0 len)) k U)).
+  Proof.
+    induction len as [|len IH]; intros j0 k U Heps Hn Hs Hinv.
+    - simpl. rewrite Nat.add_0_r. exact Hinv.
+    - cbn [seq map] in *. rewrite decomp_loop_cons. destruct Hs as [Hs1 Hs2].
+      replace (j0 + S len)%nat with (S j0 + len)%nat by lia.
+      apply IH; try assumption; try lia.
+      apply loop_step_inv; try assumption. lia.
+  Qed.
+
+  Lemma tri_inv_next n i U : (i + 1 < n)%nat -> tri_inv n i (n - 1 - i) U -> tri_inv n (S i) 0 U.
+  Proof.
+    intros Hi H r x Hr Hx Hc. apply H; try assumption.
+    destruct Hc as [Hc|[_ Hc]]; [|lia].
+    destruct (Nat.eq_dec r (n - 1 - i)); [right; lia|left; lia].
+  Qed.
+
+  Definition steps_from (n i0 m : nat) : list (nat * nat) :=
+    flat_map (fun i => map (fun j => (i, j)) (seq 0 (n - 1 - i))) (seq i0 m).
+
+  Lemma outer_loop_inv n ans m : forall i0 k U,
+    0 < eps2 -> (i0 + m + 1 = n)%nat ->
+    steps_ok n ans (steps_from n i0 m) k U ->
+    tri_inv n i0 0 U ->
+    tri_inv n (i0 + m) 0 (snd (decomp_loop rops E n ans (steps_from n i0 m) k U)).
+  Proof.
+    induction m as [|m IH]; intros i0 k U Heps Hn Hs Hinv.
+    - simpl. rewrite Nat.add_0_r. exact Hinv.
+    - unfold steps_from in *. cbn [seq flat_map] in *.
+      apply steps_ok_app in Hs as [Hs1 Hs2]. rewrite decomp_loop_app.
+      replace (i0 + S m)%nat with (S i0 + m)%nat by lia.
+      apply IH; try assumption; try lia.
+      apply tri_inv_next; [lia|].
+      apply (inner_loop_inv n ans i0 (n - 1 - i0) 0 k U Heps); try assumption; lia.
+  Qed.
+
+  (* the loop invariant at the end: everything left of the diagonal is zero *)
+  Theorem nulled_lower_zero n ans U :
+    0 < eps2 -> steps_ok n ans (reck_steps n) 0 U ->
+    forall r x, (r < n)%nat -> (x < r)%nat ->
+      snd (decomp_loop rops E n ans (reck_steps n) 0 U) r x = (0, 0).
+  Proof.
+    intros Heps Hs r x Hr Hx.
+    change (reck_steps n) with (steps_from n 0 (n - 1)) in *.
+    assert (H : tri_inv n (0 + (n - 1)) 0 (snd (decomp_loop rops E n ans (steps_from n 0 (n - 1)) 0 U))).
+    { apply outer_loop_inv; try assumption; [lia|]. intros r' x' Hr' Hx' [Hc|[_ Hc]]; lia. }
+    apply H; try assumption. left. lia.
+  Qed.
+End Tri.
+
+Section Main.
+  Open Scope R_scope.
+  Variables (eps2 prec uprec2 : R) (ints : Z -> nat -> Z) (unif norm : rsrc -> nat -> R).
+  Let E := renv eps2 prec uprec2 ints unif norm.
+  Notation Cr := (cplx rops).
+  Notation cmat := (@mat (R * R)).
+  Notation steps_ok := (steps_ok eps2 prec uprec2 ints unif norm).
+
+  (* check_unitary accepts an exactly unitary matrix *)
+  Lemma check_unitary_exact n (U : cmat) :
+    0 <= uprec2 -> lunit Cr n U -> check_unitary rops E n U = true.
+  Proof.
+    intros Hp HU. unfold check_unitary. apply forallb_forall. intros i Hi. apply forallb_forall. intros j Hj.
+    apply in_seq in Hi, Hj. rewrite (HU i j) by lia.
+    change (e_uprec2 E) with uprec2. apply rleb_true.
+    destruct (mid Cr i j) as [a b]. unfold cnorm2. simpl.
+    replace ((a - a) * (a - a) + (b - b) * (b - b)) with 0 by ring. exact Hp.
+  Qed.
+
+  (* check_null accepts a diagonal matrix *)
+  Lemma check_null_diag n (D : cmat) :
+    0 < prec -> (forall a b, (a < n)%nat -> (b < n)%nat -> a <> b -> D a b = (0, 0)) ->
+    check_null rops E n D = true.
+  Proof.
+    intros Hp HD. unfold check_null. apply forallb_forall. intros i Hi. apply forallb_forall. intros j Hj.
+    apply in_seq in Hi, Hj. destruct (Nat.eqb_spec i j) as [|Hne]; [reflexivity|].
+    rewrite HD by lia. change (e_prec E) with prec. cbn [fst snd]. unfold kgtb. simpl.
+    replace (rleb 0 prec) with true by (symmetry; apply rleb_true; lra).
+    replace (rleb 0 0) with true by (symmetry; apply rleb_true; lra).
+    simpl. rewrite andb_false_r. reflexivity.
+  Qed.
+
+  (* T2 (partial): the nulled matrix is unitary and diagonal with unit-modulus entries *)
+  Theorem nulled_is_diagonal_partial n (U : cmat) ans :
+    0 < eps2 -> unitary Cr n U -> steps_ok n ans (reck_steps n) 0%nat U ->
+    let D := snd (decomp_loop rops E n ans (reck_steps n) 0%nat U) in
+    unitary Cr n D /\
+    (forall a b, (a < n)%nat -> (b < n)%nat -> a <> b -> D a b = (0, 0)) /\
+    (forall a, (a < n)%nat -> cnorm2 rops (D a a) = 1).
+  Proof.
+    intros Heps HU Hs D.
+    assert (HDU : unitary Cr n D).
+    { unfold D. rewrite (decomp_loop_nulled (o:=rops)). apply (nulled_unitary (o:=Cr)); [|exact HU].
+      apply Forall_forall. intros T HT. apply in_map_iff in HT as [r [<- Hr]].
+      pose proof (decomp_loop_bound (o:=rops) E n ans 0%nat U) as Hb. rewrite Forall_forall in Hb.
+      specialize (Hb r Hr). apply (T_of_unitary (o:=rops) E (Hcis_R eps2 prec uprec2 ints unif norm)). lia. }
+    assert (Htri : forall r x, (r < n)%nat -> (x < r)%nat -> D r x = (0, 0)).
+    { intros r x Hr Hx. unfold D. apply (nulled_lower_zero eps2 prec uprec2 ints unif norm); assumption. }
+    split; [exact HDU|]. split.
+    - intros a b Ha Hb Hab. destruct (unitary_triangular_diagonal n D HDU Htri a Ha) as [_ Hoff]. apply Hoff; [assumption|auto].
+    - intros a Ha. destruct (unitary_triangular_diagonal n D HDU Htri a Ha) as [H1 _]. exact H1.
+  Qed.
+
+  (* hence reck_decomposition raises neither ValueError nor DecompositionUnsuccessful *)
+  Theorem reck_decomposition_succeeds_partial n (U : cmat) ans endo :
+    0 < eps2 -> 0 < prec -> 0 <= uprec2 ->
+    unitary Cr n U -> steps_ok n ans (reck_steps n) 0%nat U ->
+    let D := snd (decomp_loop rops E n ans (reck_steps n) 0%nat U) in
+    (forall a, (a < n)%nat -> angle_ok (D a a) (endo a)) ->
+    exists dc, reck_decomposition rops E n U ans endo = Ok dc /\
+      dc_nulled dc = D /\
+      (forall a b, (a < n)%nat -> (b < n)%nat -> a <> b -> dc_nulled dc a b = (0, 0)) /\
+      (forall a, (a < n)%nat -> dc_nulled dc a a = cisR (endo a)).
+  Proof.
+    intros Heps Hprec Hup HU Hs D Hang.
+    destruct (nulled_is_diagonal_partial n U ans Heps HU Hs) as (HDU & Hoff & Hdiag). fold D in HDU, Hoff, Hdiag.
+    unfold reck_decomposition.
+    rewrite (check_unitary_exact n U Hup (proj1 HU)). cbn [negb].
+    fold D. rewrite (check_null_diag n D Hprec Hoff). cbn [negb].
+    eexists. split; [reflexivity|]. cbn [dc_nulled]. split; [reflexivity|]. split; [exact Hoff|].
+    intros a Ha. apply unit_angle; [apply Hdiag|apply Hang]; assumption.
+  Qed.
+
+  (* end to end: Reck.map with the default error model reproduces every exactly unitary U
+     whose decomposition never meets an entry of modulus strictly between 0 and 1e-20 *)
+  Theorem reck_map_reproduces_partial fuel n (U : cmat) hin hout seed tok ans endo g1 g2 g3 :
+    0 < eps2 -> 0 < prec -> 0 <= uprec2 ->
+    unitary Cr n U -> seed <> SeedBad ->
+    let U' := tab Cr n (flip n U) in
+    let D := snd (decomp_loop rops E n ans (reck_steps n) 0%nat U') in
+    steps_ok n ans (reck_steps n) 0%nat U' ->
+    (forall a, (a < n)%nat -> angle_ok (D a a) (endo a)) ->
+    Forall2 (fun x y : nat * Z => snd x = snd y) hin hout ->
+    exists spec,
+      reck_map rops E fuel (default_em g1 g2 g3) n U hin hout seed tok ans endo
+        = Ok (mkCirc n spec hin hout, default_em g1 g2 g3) /\
+      meq n (compile rops E n spec) U /\
+      Forall (comp_ok n) spec.
+  Proof.
+    intros Heps Hprec Hup HU Hseed U' D Hs Hang Hher.
+    assert (HU' : unitary Cr n U') by (apply unitary_tab, flip_unitary, HU).
+    destruct (reck_decomposition_succeeds_partial n U' ans endo Heps Hprec Hup HU' Hs Hang)
+      as (dc & Hdc & _ & Hoff & Hdiag).
+    exact (reck_reconstructs_R eps2 prec uprec2 ints unif norm fuel n U hin hout seed tok ans endo g1 g2 g3 dc
+             Hseed Hdc Hoff Hdiag Hher).
+  Qed.
+End Main.
+
+(* Part 9: a concrete instance of the hypotheses of [reck_map_reproduces_partial]
+   (non-vacuity): the 2 x 2 identity, thresholds 1/4, the zero branch is taken. *)
+Section ExampleId2.
+  Open Scope R_scope.
+  Variables (ints : Z -> nat -> Z) (unif norm : rsrc -> nat -> R).
+  Notation Cr := (cplx rops).
+  Let E := renv (/ 4) (/ 4) 0 ints unif norm.
+  Let U' : @mat (R * R) := tab Cr 2 (flip 2 (mid Cr)).
+
+  Lemma ex_U' i j : (i < 2)%nat -> (j < 2)%nat -> U' i j = mid Cr i j.
+  Proof.
+    intros Hi Hj. unfold U'. rewrite tab_spec by lia. unfold flip.
+    destruct i as [|[|i]], j as [|[|j]]; try lia; reflexivity.
+  Qed.
+
+  Lemma angle_ok_1 : angle_ok (1, 0) 0.
+  Proof.
+    unfold angle_ok, cabsR. simpl. rewrite cos_0, sin_0.
+    replace (1 * 1 + 0 * 0) with 1 by ring. rewrite sqrt_1. f_equal; ring.
+  Qed.
+  Lemma angle_ok_m1 : angle_ok (-1, 0) PI.
+  Proof.
+    unfold angle_ok, cabsR. simpl. rewrite cos_PI, sin_PI.
+    replace (-1 * -1 + 0 * 0) with 1 by ring. rewrite sqrt_1. f_equal; ring.
+  Qed.
+
+  Theorem example_identity2 :
+    let ans : nat -> R * R := fun _ => (0, 0) in
+    let endo : nat -> R := fun a => if Nat.eqb a 0 then 0 else PI in
+    unitary Cr 2 (mid Cr) /\
+    steps_ok (/ 4) (/ 4) 0 ints unif norm 2 ans (reck_steps 2) 0%nat U' /\
+    (forall a, (a < 2)%nat ->
+       angle_ok (snd (decomp_loop rops E 2 ans (reck_steps 2) 0%nat U') a a) (endo a)) /\
+    (* the zero branch is the one taken *)
+    map (fun r => nr_small r) (fst (decomp_loop rops E 2 ans (reck_steps 2) 0%nat U')) = [true].
+  Proof.
+    intros ans endo.
+    assert (H10 : U' 1%nat 0%nat = (0, 0)) by (rewrite ex_U' by lia; reflexivity).
+    assert (Hsmall : kltb rops (cnorm2 rops (U' 1%nat 0%nat)) (/ 4) = true).
+    { rewrite H10, cnorm2_0. apply kltb_true. lra. }
+    split; [apply (unitary_mid (o:=Cr))|]. split; [|split].
+    - change (reck_steps 2) with [(0%nat, 0%nat)]. cbn [steps_ok]. split; [|exact Logic.I].
+      left. exact H10.
+    - intros a Ha. change (reck_steps 2) with [(0%nat, 0%nat)].
+      rewrite (decomp_loop_cons (/ 4) (/ 4) 0 ints unif norm). cbn [decomp_loop snd].
+      unfold loop_step, null_answer. change (e_eps2 (renv (/ 4) (/ 4) 0 ints unif norm)) with (/ 4).
+      change (2 - 1 - 0)%nat with 1%nat. rewrite Hsmall. cbn [fst snd].
+      change (e_pi (renv (/ 4) (/ 4) 0 ints unif norm)) with PI. change (k0 rops) with 0.
+      rewrite (bs_matrix_R (/ 4) (/ 4) 0 ints unif norm).
+      assert (Hh : half rops PI = PI / 2) by (unfold half, two; simpl; field).
+      rewrite Hh, cos_PI2, sin_PI2, cisR_0.
+      unfold null_update. rewrite tab_spec by lia. unfold bs_amp.
+      rewrite (null_update_entry (o:=Cr)) by lia.
+      destruct a as [|[|a]]; [| |lia].
+      + cbn [Nat.eqb]. rewrite !ex_U' by lia. cbn [endo Nat.eqb].
+        match goal with |- angle_ok ?z _ => replace z with ((1, 0) : R * R) end; [apply angle_ok_1|].
+        unfold cre, gph, mid. simpl. unfold cmul, cadd, cconj, copp. simpl. f_equal; ring.
+      + cbn [Nat.eqb]. rewrite !ex_U' by lia. cbn [endo Nat.eqb].
+        match goal with |- angle_ok ?z _ => replace z with ((-1, 0) : R * R) end; [apply angle_ok_m1|].
+        unfold cre, gph, mid. simpl. unfold cmul, cadd, cconj, copp. simpl. f_equal; ring.
+    - change (reck_steps 2) with [(0%nat, 0%nat)]. cbn [decomp_loop fst map nr_small].
+      unfold null_answer. change (e_eps2 E) with (/ 4). change (2 - 1 - 0)%nat with 1%nat.
+      rewrite Hsmall. reflexivity.
+  Qed.
+End ExampleId2.
